@@ -9,6 +9,9 @@ const (
 	DefaultMaxMessageSize = 1024 * 512
 	CloseTimeout          = 5 * time.Second
 	DialTimeout           = 5 * time.Second
+
+	// MaxHandshakeResponseSize bounds the head of the server's response to the upgrade request.
+	MaxHandshakeResponseSize = 64 * 1024
 )
 
 type Role uint8
